@@ -125,6 +125,8 @@ type vfC04Pool struct {
 	rrK     int
 	rrKnown bool              // baseline known: every selection of this epoch was observed
 	sticky  map[string]string // key -> server URL
+
+	lastReport *vfC04Report // the report discovery delivered last (nil: none yet)
 }
 
 func (p *vfC04Pool) resetEpoch(known bool) {
@@ -362,74 +364,178 @@ func (r vfC04Report) asMap(p *vfC04Pool) map[string]*serviceregistry.ServiceInst
 	return m
 }
 
-// vfC04GenReport draws a report: a subset of a 10-instance universe with tags and weights
-// (discovery does not go through Validate: all-zero, all-positive and mixed weights all occur).
-func vfC04GenReport(rt *rapid.T, p *vfC04Pool, idx int, nonEmptyQualifying bool) vfC04Report {
-	var n int
-	switch rapid.IntRange(0, 9).Draw(rt, "rep-nclass") {
-	case 0:
-		n = 0
-	case 1:
-		n = 1
-	case 2, 3, 4, 5:
-		n = rapid.IntRange(2, 4).Draw(rt, "rep-n")
-	default:
-		n = rapid.IntRange(2, 9).Draw(rt, "rep-n")
-	}
-	if nonEmptyQualifying && n == 0 {
-		n = 1
-	}
-	ids := rapid.Permutation([]int{0, 1, 2, 3, 4, 5, 6, 7, 8, 9}).Draw(rt, "rep-ids")[:n]
-	sort.Ints(ids)
-	mode := rapid.SampledFrom([]string{"zero", "positive", "mixed", "mixed"}).Draw(rt, "rep-weights")
-	// probability that an instance carries a selector tag: high/low per report
-	tagMode := rapid.SampledFrom([]string{"most", "most", "some", "none"}).Draw(rt, "rep-tagmode")
-	var r vfC04Report
-	for _, id := range ids {
-		in := vfC04Inst{ID: fmt.Sprintf("i%d", id), Port: uint16(9000 + id)}
-		if id%3 == 2 {
-			in.Addr = fmt.Sprintf("inst%d-%d.vf.test", idx, id)
-			in.Scheme = "https"
-		} else {
-			in.Addr = fmt.Sprintf("10.%d.1.%d", idx+1, id+1)
-			if id%2 == 0 {
-				in.Scheme = "http"
-			}
+// vfC04GenInst draws one instance of the 10-instance universe (the URL is a function of the id,
+// so the same id re-reported later is the same server URL).
+func vfC04GenInst(rt *rapid.T, p *vfC04Pool, idx, id int, mode, tagMode string) vfC04Inst {
+	in := vfC04Inst{ID: fmt.Sprintf("i%d", id), Port: uint16(9000 + id)}
+	if id%3 == 2 {
+		in.Addr = fmt.Sprintf("inst%d-%d.vf.test", idx, id)
+		in.Scheme = "https"
+	} else {
+		in.Addr = fmt.Sprintf("10.%d.1.%d", idx+1, id+1)
+		if id%2 == 0 {
+			in.Scheme = "http"
 		}
-		switch mode {
-		case "positive":
+	}
+	switch mode {
+	case "positive":
+		in.Weight = vfC04GenWeight(rt, "rep-w-"+in.ID)
+	case "mixed":
+		if rapid.Bool().Draw(rt, "rep-wz-"+in.ID) {
 			in.Weight = vfC04GenWeight(rt, "rep-w-"+in.ID)
-		case "mixed":
-			if rapid.Bool().Draw(rt, "rep-wz-"+in.ID) {
-				in.Weight = vfC04GenWeight(rt, "rep-w-"+in.ID)
+		}
+	}
+	qualifies := false
+	switch tagMode {
+	case "most":
+		qualifies = rapid.IntRange(0, 9).Draw(rt, "rep-q-"+in.ID) < 8
+	case "some":
+		qualifies = rapid.IntRange(0, 9).Draw(rt, "rep-q-"+in.ID) < 4
+	}
+	in.Tags = vfC04GenInstTags(rt, p, in.ID, qualifies)
+	return in
+}
+
+// vfC04GenInstTags: tags of an instance that does / does not carry a selector tag.
+func vfC04GenInstTags(rt *rapid.T, p *vfC04Pool, id string, qualifies bool) []string {
+	var tags, others []string
+	for _, tg := range vfC04TagAlphabet {
+		if !vfC04In(p.serverTags, tg) {
+			others = append(others, tg)
+		}
+	}
+	if qualifies && len(p.serverTags) > 0 {
+		// one or all selector tags (an instance matching several selector tags still counts once)
+		if rapid.Bool().Draw(rt, "rep-alltags-"+id) {
+			tags = append(tags, p.serverTags...)
+		} else {
+			tags = append(tags, rapid.SampledFrom(p.serverTags).Draw(rt, "rep-tag-"+id))
+		}
+	}
+	if len(others) > 0 && rapid.Bool().Draw(rt, "rep-other-"+id) {
+		tags = append(tags, rapid.SampledFrom(others).Draw(rt, "rep-othertag-"+id))
+	}
+	sort.Strings(tags)
+	return tags
+}
+
+func vfC04InstID(in vfC04Inst) int {
+	n, _ := strconv.Atoi(strings.TrimPrefix(in.ID, "i"))
+	return n
+}
+
+// vfC04GenReport draws a report. About half of the reports that follow an earlier one are
+// derived from it, the way a registry really behaves: the same instances (same URLs) with
+// changed weights (including to zero), changed tags (an instance stops / starts qualifying),
+// another order, a subset or a superset of the previous instances, or exactly the same content
+// again (heartbeat). The other reports are fresh subsets of a 10-instance universe with tags and
+// weights (discovery does not go through Validate: all-zero, all-positive and mixed weights occur).
+// Returns the report and how it was derived.
+func vfC04GenReport(rt *rapid.T, p *vfC04Pool, idx int, prev *vfC04Report, nonEmptyQualifying bool) (vfC04Report, string) {
+	deriv := "fresh"
+	if prev != nil && len(prev.insts) > 0 {
+		deriv = rapid.SampledFrom([]string{"fresh", "fresh", "fresh", "reweight", "reweight", "reweight", "retag", "retag",
+			"same", "subset", "superset", "mix", "mix"}).Draw(rt, "rep-derivation")
+	}
+	var r vfC04Report
+	if deriv == "fresh" {
+		var n int
+		switch rapid.IntRange(0, 9).Draw(rt, "rep-nclass") {
+		case 0:
+			n = 0
+		case 1:
+			n = 1
+		case 2, 3, 4, 5:
+			n = rapid.IntRange(2, 4).Draw(rt, "rep-n")
+		default:
+			n = rapid.IntRange(2, 9).Draw(rt, "rep-n")
+		}
+		if nonEmptyQualifying && n == 0 {
+			n = 1
+		}
+		ids := rapid.Permutation([]int{0, 1, 2, 3, 4, 5, 6, 7, 8, 9}).Draw(rt, "rep-ids")[:n]
+		sort.Ints(ids)
+		mode := rapid.SampledFrom([]string{"zero", "positive", "mixed", "mixed"}).Draw(rt, "rep-weights")
+		// probability that an instance carries a selector tag: high/low per report
+		tagMode := rapid.SampledFrom([]string{"most", "most", "some", "none"}).Draw(rt, "rep-tagmode")
+		for _, id := range ids {
+			r.insts = append(r.insts, vfC04GenInst(rt, p, idx, id, mode, tagMode))
+		}
+	} else {
+		for _, in := range prev.insts {
+			in.Tags = append([]string(nil), in.Tags...)
+			r.insts = append(r.insts, in)
+		}
+		reweight := deriv == "reweight" || deriv == "mix"
+		retag := deriv == "retag" || deriv == "mix"
+		resize := ""
+		if deriv == "subset" || deriv == "superset" {
+			resize = deriv
+		} else if deriv == "mix" {
+			resize = rapid.SampledFrom([]string{"", "subset", "superset"}).Draw(rt, "rep-mix-resize")
+		}
+		if reweight {
+			changed := false
+			for i := range r.insts {
+				old := r.insts[i].Weight
+				switch rapid.IntRange(0, 3).Draw(rt, "rep-rw-"+r.insts[i].ID) {
+				case 0: // keep
+				case 1:
+					r.insts[i].Weight = 0
+				default:
+					r.insts[i].Weight = vfC04GenWeight(rt, "rep-w-"+r.insts[i].ID)
+				}
+				if r.insts[i].Weight != old {
+					changed = true
+				}
+			}
+			if !changed { // make sure the report differs: zero <-> positive on the first instance
+				if r.insts[0].Weight == 0 {
+					r.insts[0].Weight = vfC04GenWeight(rt, "rep-w-forced")
+				} else {
+					r.insts[0].Weight = 0
+				}
 			}
 		}
-		qualifies := false
-		switch tagMode {
-		case "most":
-			qualifies = rapid.IntRange(0, 9).Draw(rt, "rep-q-"+in.ID) < 8
-		case "some":
-			qualifies = rapid.IntRange(0, 9).Draw(rt, "rep-q-"+in.ID) < 4
-		}
-		var others []string
-		for _, tg := range vfC04TagAlphabet {
-			if !vfC04In(p.serverTags, tg) {
-				others = append(others, tg)
+		if retag {
+			for i := range r.insts {
+				if rapid.IntRange(0, 2).Draw(rt, "rep-rt-"+r.insts[i].ID) == 0 {
+					q := vfC04Qualifies(p.serverTags, r.insts[i].Tags)
+					r.insts[i].Tags = vfC04GenInstTags(rt, p, r.insts[i].ID, !q)
+				}
 			}
 		}
-		if qualifies && len(p.serverTags) > 0 {
-			// one or all selector tags (an instance matching several selector tags still counts once)
-			if rapid.Bool().Draw(rt, "rep-alltags-"+in.ID) {
-				in.Tags = append(in.Tags, p.serverTags...)
-			} else {
-				in.Tags = append(in.Tags, rapid.SampledFrom(p.serverTags).Draw(rt, "rep-tag-"+in.ID))
+		switch resize {
+		case "subset":
+			if len(r.insts) > 1 {
+				keep := rapid.IntRange(1, len(r.insts)-1).Draw(rt, "rep-keep")
+				perm := rapid.Permutation(r.insts).Draw(rt, "rep-subset")
+				r.insts = append([]vfC04Inst(nil), perm[:keep]...)
+			}
+		case "superset":
+			var free []int
+			for id := 0; id < 10; id++ {
+				used := false
+				for _, in := range r.insts {
+					if vfC04InstID(in) == id {
+						used = true
+					}
+				}
+				if !used {
+					free = append(free, id)
+				}
+			}
+			if len(free) > 0 {
+				add := rapid.IntRange(1, vfC04Min(3, len(free))).Draw(rt, "rep-add")
+				perm := rapid.Permutation(free).Draw(rt, "rep-superset")
+				mode := rapid.SampledFrom([]string{"zero", "positive", "mixed"}).Draw(rt, "rep-weights")
+				for _, id := range perm[:add] {
+					r.insts = append(r.insts, vfC04GenInst(rt, p, idx, id, mode, "most"))
+				}
 			}
 		}
-		if len(others) > 0 && rapid.Bool().Draw(rt, "rep-other-"+in.ID) {
-			in.Tags = append(in.Tags, rapid.SampledFrom(others).Draw(rt, "rep-othertag-"+in.ID))
-		}
-		sort.Strings(in.Tags)
-		r.insts = append(r.insts, in)
+		// another order of the same instances (the registry hands over a map: order carries no meaning)
+		r.insts = rapid.Permutation(r.insts).Draw(rt, "rep-order")
 	}
 	if nonEmptyQualifying && len(p.serverTags) > 0 {
 		any := false
@@ -443,7 +549,32 @@ func vfC04GenReport(rt *rapid.T, p *vfC04Pool, idx int, nonEmptyQualifying bool)
 			sort.Strings(r.insts[0].Tags)
 		}
 	}
-	return r
+	return r, deriv
+}
+
+func vfC04Min(a, b int) int {
+	if a < b {
+		return a
+	}
+	return b
+}
+
+// vfC04SameURLs reports whether two lists have the same set of server URLs, and whether some
+// member's weight differs between them.
+func vfC04SameURLs(a, b []vfC04Srv) (same, weightsDiffer bool) {
+	if len(a) != len(b) || len(a) == 0 {
+		return false, false
+	}
+	for _, s := range a {
+		o, ok := vfC04Find(b, s.URL)
+		if !ok {
+			return false, false
+		}
+		if o.Weight != s.Weight {
+			weightsDiffer = true
+		}
+	}
+	return true, weightsDiffer
 }
 
 func vfC04In(l []string, s string) bool {
